@@ -77,7 +77,7 @@ def ensure (c : Bool) (e : Err) : Except Err Unit := if c then .ok () else .erro
 def ofOpt {α} (o : Option α) (e : Err) : Except Err α :=
   match o with | some a => .ok a | none => .error e
 
-@[simp] theorem ensure_ok_iff (c : Bool) (e : Err) : ensure c e = .ok () ↔ c = true := by
+@[simp] theorem ensure_ok_iff (c : Bool) (e : Err) (u : Unit) : ensure c e = .ok u ↔ c = true := by
   unfold ensure; split <;> simp_all
 
 @[simp] theorem ofOpt_ok_iff {α} (o : Option α) (e : Err) (a : α) : ofOpt o e = .ok a ↔ o = some a := by
